@@ -130,7 +130,12 @@ def judge(case):
                 if a and a not in env:
                     records[a] = {b: "OTHER", "_" + b: "OTHER"}
         records = {k: v for k, v in records.items() if k not in M.all_fields(prog)}
+        logrec = {k: "x" for k in ("name", "module", "message", "msg", "args", "process", "thread", "created", "filename", "lineno", "levelname", "exc_info", "stack_info", "extra")
+                  if k not in M.all_fields(prog)}
+        with common.ambient(debug_logging=True):
+            with_debug = sut.call(ev, dict(env, **logrec))
         twins = [
+            ("extra keyword arguments named like log-record attributes %r, DEBUG logging on" % (sorted(logrec),), with_debug),
             ("extra keyword arguments %r" % (extra,), sut.call(ev, dict(env, **extra))),
             ("record-valued extra keyword arguments %r (after the fields)" % (sorted(records),), sut.call(ev, dict(env, **records))),
             ("record-valued extra keyword arguments %r (before the fields)" % (sorted(records),), sut.call(ev, dict(records, **env))),
@@ -190,7 +195,8 @@ def vary_cases(draw):
                                            ("s", "s "), ("Exp", "exp"), ("\u00e9", "e\u0301"), ("\u2126", "\u03a9"), ("u//1", "u//2"), ("q", "q'"), ("ﬁ", "fi"),
                                            ("p /* 1 */", "p /* 2 */"), ("x" * 70 + "_v1", "x" * 70 + "_v2"),
                                            ("a-long-descriptive-salt-for-the-spring-campaign-landing-page-experiment-A", "a-long-descriptive-salt-for-the-spring-campaign-landing-page-experiment-B"),
-                                           ("007", "7"), ("1.50", "1.5"), ("1e3", "1000.0")])))
+                                           ("007", "7"), ("1.50", "1.5"), ("1e3", "1000.0"),
+                                           ("wave-7", "wave-7\x00"), ("", "\x00"), ("a\x00", "a\x00\x00"), ("s", "s\x00\x00\x00"), ("k", "k" + "\x00" * 64)])))
     else:
         salts = draw(st.lists(st.sampled_from(["a", "b", "s1", "s2", "exp", "exp2", "A", " a", "a ", "é", "v1", "v2", "1", "2"]),
                               min_size=2, max_size=2, unique=True))
@@ -341,6 +347,9 @@ def run(ctx, rec):
     if ctx.shard == 0:
         fixed_vary = [{"ws": ["1", "2", "1", "3"], "salts": ["a", "b"], "field": "uid", "base": 7, "kind": k, "cond": c}
                       for k in ("int", "str", "padded", "decimal", "fraction", "bigint") for c in (False, True)]
+        # salts that differ only by trailing NUL characters (or by nothing but NULs): different salts all the same
+        fixed_vary += [{"ws": ["1", "2", "1", "3"], "salts": list(p), "field": "uid", "base": 3, "kind": "str", "cond": False}
+                       for p in (("wave-7", "wave-7\x00"), ("", "\x00"), ("a\x00", "a\x00\x00"), ("k", "k" + "\x00" * 64), ("\x00", "\x00\x00"))]
         runner.direct_run(ctx, rec, "varies-fixed", fixed_vary, judge_vary)
         if rec.violations:
             return
